@@ -176,6 +176,13 @@ func runC09(c *Ctx) {
 	ruleDefer(c, "R-DEFER", pkgs)
 	ruleStaleErr(c, "R-STALE-ERR", pkgs)
 	c09FileLock(c, pkStore)
+	{
+		op := append([]*packages.Package{}, pkgs...)
+		if q := p.Pkg("private/bufpkg/bufmodule"); q != nil {
+			op = append(op, q)
+		}
+		ruleOnceResultLost(c, "ONCE-RESULT-LOST", op)
+	}
 	c09ExpectedFromRequest(c, pkStore)
 	c09RevalidateUnconditional(c, pkStore, isMarkerPath)
 	ruleErrUse(c, "R-ERRUSE", pkgs, func(string) (bool, string) { return true, "" }, c15AllowedErrUse)
